@@ -6,7 +6,8 @@ VERIF = os.path.dirname(os.path.dirname(os.path.abspath(__file__)))
 for d in sys.argv[1:]:
     d = d.rstrip('/')
     meta = json.load(open(os.path.join(d, 'meta.json')))
-    pid = meta['property']
+    import re as _re
+    pid = _re.search(r'C\d+', str(meta['property'])).group(0)
     st = subprocess.run(['git', '-C', '/repo', 'status', '--porcelain', '--untracked-files=no'], capture_output=True, text=True).stdout.strip()
     if st:
         print('refusing: /repo has local changes'); sys.exit(2)
